@@ -1,3 +1,2 @@
--- This module serves as the root of the `HitenModel` library.
--- Import modules here that should be built as part of the library.
-import HitenModel.Basic
+-- root of the library: every property module
+import HitenModel.Props.C01
